@@ -137,11 +137,11 @@ func c14NewEnv() *c14Env {
 	add("ptrM", "ptr-download-fails", "s", []byte(c14PointerText(e.objM)), e.objM)
 	add("ptrE", "ptr-download-fails", "s", []byte(c14PointerText(e.objE)), e.objE)
 	add("ptrNC", "ptr-noncanonical", "s", []byte(ptrS+"\n"), e.objS) // non-canonical spelling (extra blank line) of ptrS
-	add("empty", "empty", "s", []byte{}, nil)
-	add("small", "small-content", "cs", []byte("hello c14\n"), nil)
+	add("empty", "empty", "", []byte{}, nil)
+	add("small", "small-content", "s", []byte("hello c14\n"), nil)
 	add("contentS", "object-content", "c", e.objS, nil) // cleaning it puts object S into the local store
 	add("big", "big-content", "", gitx.Content("bin", c14MaxData+1025, 5), nil)
-	add("ptrpad", "ptr-prefixed-content", "s", []byte(ptrS+pad+"trailing content\n"), nil) // first 1024 bytes parse as ptrS
+	add("ptrpad", "ptr-prefixed-content", "", []byte(ptrS+pad+"trailing content\n"), nil) // first 1024 bytes parse as ptrS
 	add("ptrjunk", "ptr-prefixed-content", "", []byte(ptrS+"this line is not part of a pointer\n"), nil)
 
 	e.roots = []c14Root{
